@@ -331,3 +331,36 @@ PROPS["C14"] = dict(
         "outcomes are compared between separately created, identically configured nodes; piggybacked broadcasts in replies are ignored, direct replies are compared decoded",
     ],
 )
+
+PROPS["C13"] = dict(
+    title="Hostile bytes never crash, hang, or bypass the documented resource caps",
+    pkg="./props/c13",
+    level="fault_enumeration",
+    journal=True,
+    technique="property-based testing (rapid) + exhaustive single-byte sweep + native coverage-guided fuzzing, oracle = survival, liveness of both listeners, lenient independent parse",
+    rule=("a real node with two known members (label none/'lbl'; no encryption / encryption with verify-incoming / without) receives, as packet or stream: "
+          "(a) mutations of 21 genuine message kinds applied before sealing (so they reach the inner decoders) or after (outer layer): byte substitution with "
+          "msgpack/type-significant values, bit flips, truncation at any offset, extension up to 70000 bytes, splicing two messages, nesting compound/compress "
+          "up to depth 40, 1/2/4-byte length fields set to extremes, unconstrained byte strings; streams are closed or left stalled by the sender; "
+          "(b) exhaustive sweep: truncation and 6 substitutions at every byte position (quick: every third) of every genuine plaintext <= 400 bytes, plain and "
+          "encrypted; (c) declared sizes beyond the caps (node count, user state, user message, encrypted frame length; also negative) followed by up to 1 MiB of "
+          "data; a 40 MiB+ decompression bomb as packet and stream; 0-300 stalled concurrent push/pulls; floods beyond HandoffQueueDepth while the handler is "
+          "blocked. Oracle: the process survives (every case is journalled first; a crash of the binary is attributed to it), every stream is closed by the node "
+          "within its TCP timeout, afterwards the node answers a state dump and a ping, records/events/delegate payloads change only if some prefix-tolerant "
+          "parse of a plaintext candidate names them, over-cap declarations consume at most the declaration plus two read buffers and deliver nothing, the cap "
+          "on concurrent push/pulls and the queue depth hold; at the end the bubble exits (no goroutine left). non-trivial = input that gets past the outermost "
+          "layer (label and, when configured, decryption); thorough adds native fuzzing with the genuine corpus as seeds"),
+    tests=[
+        dict(name="hostile", run="^TestHostileInputs$", quick=dict(shards=10, checks=500, timeout=600), thorough=dict(shards=10, checks=25000, timeout=3400)),
+        dict(name="sweep", kind="plain", run="^TestSingleByteSweep$", quick=dict(shards=4, timeout=600), thorough=dict(shards=8, timeout=3400)),
+        dict(name="caps", run="^(TestOversizeDeclarations|TestConcurrentPushPullCap|TestHandoffQueueDepth)$", quick=dict(shards=2, checks=150, timeout=600), thorough=dict(shards=4, checks=2000, timeout=3000)),
+        dict(name="bomb", kind="plain", run="^TestDecompressionBomb$", quick=dict(shards=1, timeout=600)),
+        dict(name="seedcorpus", kind="plain", run="^Fuzz", quick=dict(shards=1, timeout=600)),
+        dict(name="fuzzpkt", kind="fuzz", run="^FuzzPacket$", thorough=dict(fuzztime="300s", timeout=700)),
+        dict(name="fuzzstream", kind="fuzz", run="^FuzzStream$", thorough=dict(fuzztime="300s", timeout=700)),
+    ],
+    assumptions=PUPPET_ASSUMPTIONS + [
+        "'refused before the data is buffered' is observed as bytes consumed from the stream, not as allocations",
+        "a panic on a memberlist goroutine kills the test binary; the driver attributes it to the journalled case",
+    ],
+)
